@@ -722,6 +722,9 @@ class TransportLayerLogic:
 
         send_request = self.SendRequest(data=data, target_address_type=target_address_type)
 
+        if send_request.generator.total_length() > 0xFFFFFFFF:
+            raise ValueError('Cannot send more than 4294967295 bytes (limit of the First Frame length field)')
+
         if self.tx_queue.full():
             raise RuntimeError('Transmit queue is full')
 
